@@ -43,8 +43,9 @@ Proof.
   rewrite (datatype_blen _ Hdt), dataspace_blen. unfold size_attribute. unfold blen; cbn [length]. blia.
 Qed.
 
-Lemma attribute_roundtrip x : wf_attribute x = true ->
-  dec_attribute false (enc_attribute x) = Ok (proj_attribute x).
+(* for both variants of the version 2 padding switch (the writer emits version 3, which neither pads) *)
+Lemma attribute_roundtrip_gen rep x : wf_attribute x = true ->
+  dec_attribute_gen rep false (enc_attribute x) = Ok (proj_attribute x).
 Proof.
   intros Hwf. pose proof (attribute_blen x Hwf) as Hlen.
   unfold wf_attribute in Hwf.
@@ -61,7 +62,7 @@ Proof.
   assert (Edt : blen dtb = size_datatype dt) by (apply datatype_blen; auto).
   assert (Eds : blen dsb = size_dataspace ds) by (apply dataspace_blen).
   unfold size_attribute in Hlen. cbn [at_name at_dt at_ds at_data] in Hlen.
-  unfold dec_attribute. rewrite Hlen.
+  unfold dec_attribute_gen. rewrite Hlen.
   rewrite enc_attribute_shape. cbn [at_name at_dt at_ds at_data]. fold dtb dsb.
   assert (Wn : wrap16 (blen name + 1) = blen name + 1) by (unfold wrap16; apply N.mod_small; blia).
   assert (Wt : wrap16 (blen dtb) = blen dtb) by (unfold wrap16; apply N.mod_small; blia).
@@ -72,8 +73,12 @@ Proof.
     as (R0 & R2 & R4 & R6); [subst ns; blia | blia | blia |]. fold H in R0, R2, R4, R6.
   replace (9 + ns + size_datatype dt + size_dataspace ds + blen dat <? 8) with false
     by (symmetry; apply N.ltb_ge; blia).
-  unfold rd16. rewrite R0, R2, R4, R6. cbn [obind].
-  change (3 <=? 3) with true. change (3 <? 3) with false. cbv iota.
+  assert (R1 : index (H ++ name ++ [0] ++ dtb ++ dsb ++ dat) 1 = Ok 0) by reflexivity.
+  unfold rd16. rewrite R0. cbn [obind]. rewrite R1. cbn [obind].
+  change (N.land 0 3 =? 0) with true. cbn [negb]. rewrite !andb_false_r. cbv iota.
+  rewrite R2, R4, R6. cbn [obind].
+  change (3 <=? 3) with true. change (3 <? 3) with false. change (3 <? 2) with false.
+  replace (if rep then false else false) with false by (destruct rep; reflexivity). cbv iota.
   assert (HH : blen H = 9) by apply blen_attr_hdr.
   replace (9 + ns + size_datatype dt + size_dataspace ds + blen dat <? 9 + ns) with false
     by (symmetry; apply N.ltb_ge; blia).
@@ -115,3 +120,7 @@ Proof.
       by (rewrite ?blen_app, ?HH; subst ns; unfold blen in *; cbn [length]; blia).
     reflexivity.
 Qed.
+
+Lemma attribute_roundtrip x : wf_attribute x = true ->
+  dec_attribute false (enc_attribute x) = Ok (proj_attribute x).
+Proof. apply attribute_roundtrip_gen. Qed.
